@@ -243,3 +243,7 @@ def run(ctx):
     # ---------------- R9: with WAL enabled no DML B-tree mutation bypasses the dirty-tracking wrapper ----------------
     # (a page written through a raw MmapStorage is never dirty-tracked, hence never logged: the acknowledged change is not in the log)
     common.unwrapped_mutations(ctx, "R9.MUTATION-LOGGED")
+
+    # ---------------- R10: appended frames land where replay reads them (C03 T1/T2, shared) ----------------
+    from props import c03
+    c03.append_position(ctx, "R10.")
